@@ -171,6 +171,9 @@ def _for_over(I, s, st, itv, ctx):
                     esc += e
             live = nxt
         return _finish(I, s, live, brk, esc, ctx)
+    if isinstance(itv, Ref) and st.heap[itv.oid].kind == "dict" and st.heap[itv.oid].ckeys is None:
+        # iteration over a dict with symbolic keys: one step per key, the keys are pairwise different
+        return _for_symbolic(I, s, st, "seq", st.heap[itv.oid].keys, ctx, distinct=True)
     ss = symbolic_seq(I, st, itv)
     if ss is None:
         if isinstance(itv, (Conc, BoolV)):
